@@ -133,6 +133,8 @@ class Frame:
                 self.env[p] = self.selfobj
             else:
                 self.env[p] = ('param', p)
+            if fn.kinds.get(p) == 'num' and self.env[p][0] == 'param':
+                T.SCALARS.add(self.env[p])
             self.alias[p] = p
         if fn.vararg:
             self.env[fn.vararg] = bound.get(fn.vararg, ('tuple', ()))
@@ -399,8 +401,11 @@ class Frame:
         return out
 
     # ------------------------------------------------------------------ loops
+    _iter_guard = TRUE
+
     def iter_binding(self, it_node):
-        """-> (key, element term builder) for a for-loop / comprehension iterable."""
+        """-> (key, loop variable, element term) for a for-loop / comprehension iterable; ``self._iter_guard`` collects the condition
+        under which an element is visited (masked iteration)"""
         depth = len(self.loops)
         if isinstance(it_node, ast.Call) and isinstance(it_node.func, ast.Name) and it_node.func.id in ('range', 'enumerate', 'zip', 'product') \
                 and it_node.func.id not in self.env:
@@ -417,13 +422,31 @@ class Frame:
                 pos = self.position(key, lv)
                 return key, lv, ('tuple', (T.add(pos, start) if start != C(0) else pos, elem))
             if f == 'zip':
-                parts = [self.iter_binding(x) for x in it_node.args]
+                parts, guards = [], []
+                outer = self._iter_guard
+
+                def part(fn_, arg):
+                    self._iter_guard = TRUE
+                    p_ = fn_(arg)
+                    parts.append(p_)
+                    guards.append((p_[1], self._iter_guard))
+                for x in it_node.args:
+                    if isinstance(x, ast.Starred):
+                        sv = self.ex(x.value)          # zip(*(A, B)) == zip(A, B)
+                        if sv[0] in ('tuple', 'list'):
+                            for e in sv[1]:
+                                part(lambda t: self.iter_of_term(t, depth), e)
+                            continue
+                        part(lambda t: self.iter_of_term(t, depth), ('starred', sv))
+                    else:
+                        part(self.iter_binding, x)
                 keys = {p[0] for p in parts}
                 key = parts[0][0] if len(keys) == 1 else ('zip', tuple(p[0] for p in parts))
                 lv = ('lv', key, depth)
                 elems = []
                 for (k, l, e) in parts:
                     elems.append(T.subst(e, lambda x, l=l: lv if x == l else None))
+                self._iter_guard = T.and_([outer] + [T.subst(gd, lambda x, l=l: lv if x == l else None) for l, gd in guards])
                 return key, lv, ('tuple', tuple(elems))
             if f == 'product':
                 parts = [self.iter_binding(x) for x in it_node.args]
@@ -451,6 +474,12 @@ class Frame:
             key = ('keysof', it[2])
             lv = ('lv', key, depth)
             return key, lv, ('keyat', it[2], lv)
+        if it[0] == 'idx' and it[2][0] in ('cmp0', 'band', 'bor', 'binv'):
+            # iterating the selected elements X[mask] == iterating all positions of X under the guard mask[i]
+            key = ('range', C(0), T.length(it[1]), C(1))
+            lv = ('lv', key, depth)
+            self._iter_guard = T.and_([self._iter_guard, T.index(it[2], lv)])
+            return key, lv, T.index(it[1], lv)
         # iterating a sequence == iterating its positions: one normal form for `for x in X`, `for i in range(len(X))` and comprehensions
         key = ('range', C(0), T.length(it), C(1))
         lv = ('lv', key, depth)
@@ -490,7 +519,9 @@ class Frame:
             if s.orelse:
                 return self.block(s.orelse)
             return FALL
+        self._iter_guard = TRUE
         key, lv, elem = self.iter_binding(s.iter)
+        it_guard = self._iter_guard
         assigned = _assigned_names(s.body)
         targets = _target_names(s.target)
         live_in = _read_before_write(s.body, targets)
@@ -503,6 +534,8 @@ class Frame:
         self.loops.append(lv)
         self.breaks.append([])
         n0, p0 = len(self.pc), len(self.perm)
+        if it_guard != TRUE:
+            self.pc.append(it_guard)
         out = self.block(s.body)
         del self.pc[n0:]
         del self.perm[p0:]
@@ -1014,7 +1047,11 @@ class Frame:
         saved_env, saved_loops = dict(self.env), list(self.loops)
         keys, conds = [], []
         for g in n.generators:
+            self._iter_guard = TRUE
             key, lv, elem = self.iter_binding(g.iter)
+            if self._iter_guard != TRUE:
+                conds.append(self._iter_guard)
+                self.pc.append(self._iter_guard)
             self.assign(g.target, elem, n)
             self.loops.append(lv)
             keys.append(key)
